@@ -7,7 +7,16 @@
 pub mod vx;
 
 mod universe;
+mod mkmsg;
+mod wire;
+mod c02;
+mod c03;
+mod c04;
+mod c05;
 mod c06;
+mod c12;
+mod c14;
+mod c19;
 
 fn main() {
     vx::report::quiet_panics();
@@ -22,6 +31,13 @@ fn main() {
     let rep = match part {
         "c06" => c06::run("C06", replay.as_deref()),
         "c15" => c06::run("C15", replay.as_deref()),
+        "c02" => c02::run(replay.as_deref()),
+        "c03" => c03::run(replay.as_deref()),
+        "c04" => c04::run(replay.as_deref()),
+        "c05" => c05::run(replay.as_deref()),
+        "c12" => c12::run(replay.as_deref()),
+        "c14" => c14::run(replay.as_deref()),
+        "c19" => c19::run(replay.as_deref()),
         _ => {
             eprintln!("hx: unknown part {part:?}");
             std::process::exit(2);
